@@ -68,7 +68,7 @@ def reduce_failure(w, text, indent, kind):
 
 def features(core, kind, det):
     f = []
-    if re.search(r"(//|#)[^\n]*\n?\s*[)\]}]", core):
+    if re.search(r"(//|#)[^\n]*\n?[\s,]*[)\]}]", core):
         f.append("line-comment-before-closing-bracket")
     elif re.search(r"(//|#)", core):
         f.append("line-comment")
